@@ -915,7 +915,7 @@ def _run(ctx, binp, tmp):
                 for si, (spec, dec) in enumerate(specs):
                     pend = tr.pending(n)
                     torn_root = any(isinstance(d, tuple) and d[0] in "gps" and tr.ev[i]["k"] == "P" and tr.ev[i]["off"] < FREE_START for i, d in zip(pend, dec))
-                    cont = ((torn_root and r.chance(1, 6)) or r.chance(1, 40)) and n_cont_w < (40 if thorough else 20)
+                    cont = ((torn_root and r.chance(1, 6)) or r.chance(1, 40)) and n_cont_w < 12
                     if cont:
                         n_cont_w += 1
                     reqs.append((wid, n, spec, cont))
